@@ -79,7 +79,7 @@ def _domain_traverse(n):
     import random, os
     import networkx as nx
     from adsg_core.graph.traversal import traverse_until_choice_nodes
-    from adsg_core.graph.graph_edges import EdgeType, add_edge
+    from adsg_core.graph.graph_edges import EdgeType, add_edge, HashableDict
     from adsg_core.graph.adsg_nodes import NamedNode, SelectionChoiceNode, ChoiceNode
     rng = random.Random(8000 + int(os.environ.get('VERIF_SEED', '0') or 0))
     types = [EdgeType.DERIVES, EdgeType.CONNECTS, EdgeType.INCOMPATIBILITY, EdgeType.EXCLUDES]
@@ -87,6 +87,7 @@ def _domain_traverse(n):
         nn = rng.randint(1, 7)
         nodes = [SelectionChoiceNode(f'c{i}') if rng.random() < 0.25 else NamedNode(f'n{i}') for i in range(nn)]
         g = nx.MultiDiGraph()
+        g.edge_attr_dict_factory = HashableDict
         g.add_nodes_from(nodes)
         es = set()
         for _ in range(rng.randint(0, 10)):
@@ -235,7 +236,7 @@ def _domain_deriving(n):
     import random, os
     import networkx as nx
     from adsg_core.graph.incompatibility import get_incompatibility_deriving_nodes
-    from adsg_core.graph.graph_edges import EdgeType, add_edge
+    from adsg_core.graph.graph_edges import EdgeType, add_edge, HashableDict
     from adsg_core.graph.adsg_nodes import NamedNode, SelectionChoiceNode
     rng = random.Random(8100 + int(os.environ.get('VERIF_SEED', '0') or 0))
     types = [EdgeType.DERIVES, EdgeType.DERIVES, EdgeType.DERIVES, EdgeType.CONNECTS, EdgeType.INCOMPATIBILITY]
@@ -243,6 +244,7 @@ def _domain_deriving(n):
         nn = rng.randint(2, 8)
         nodes = [SelectionChoiceNode(f'c{i}') if rng.random() < 0.3 else NamedNode(f'n{i}') for i in range(nn)]
         g = nx.MultiDiGraph()
+        g.edge_attr_dict_factory = HashableDict
         g.add_nodes_from(nodes)
         es = set()
         for _ in range(rng.randint(1, 12)):
